@@ -1,26 +1,50 @@
 #!/usr/bin/env python3
 """Prints the markdown tables of DESIGN.md section 13.5 (mutant catalogue) and 13.6 (independently written changes)
-from sensitivity_results.json and seeded/*/meta.json."""
-import json, os, glob
+from sensitivity_results.json and seeded/*/meta.json; with --update-design rewrites both tables inside DESIGN.md
+(from the table header line to the line before the next blank-line-terminated paragraph / heading)."""
+import json, os, glob, sys
 V = os.path.dirname(os.path.dirname(os.path.abspath(__file__)))
 
-def main():
+def sensitivity_table():
     res = json.load(open(os.path.join(V, "sensitivity_results.json")))
-    print("| mutant | property | file | change | verdict | violation class | s |")
-    print("|---|---|---|---|---|---|---|")
+    out = ["| mutant | property | file | change | verdict | violation class | s |", "|---|---|---|---|---|---|---|"]
     n = c = 0
     for k in sorted(res, key=lambda k: (res[k]["prop"], k)):
         r = res[k]; n += 1; c += r["result"] == "caught"
         cls = ", ".join(x.replace("class=", "") for x in r.get("classes", [])[:2])
-        print("| %s | %s | %s | %s | %s | %s | %s |" % (k, r["prop"], os.path.basename(r.get("file", "")), r["what"], r["result"], cls, r.get("seconds", "")))
-    print("\n%d of %d mutants caught by the quick check of their property (scale 0.5).\n" % (c, n))
-    print("| seeded change | property | needs | caught by (violation class) | note |")
-    print("|---|---|---|---|---|")
+        out.append("| %s | %s | %s | %s | %s | %s | %s |" % (k, r["prop"], os.path.basename(r.get("file", "")), r["what"], r["result"], cls, r.get("seconds", "")))
+    out += ["", "%d of %d mutants caught by the quick check of their property (scale 0.5)." % (c, n)]
+    return out
+
+def seeded_table():
+    out = ["| seeded change | property | needs | caught by (violation class) | note |", "|---|---|---|---|---|"]
+    n = c = st = 0
     for f in sorted(glob.glob(os.path.join(V, "seeded", "*", "meta.json"))):
         m = json.load(open(f))
-        ch = m["check"]
+        ch = m["check"]; n += 1; c += ch["verdict"] == "caught"; st += "strengthening" in m
         note = "strengthened: yes" if "strengthening" in m else ""
-        print("| %s | %s | %s | `%s`: %s (%s) | %s |" % (m["id"], m["property"], m["needs_to_manifest"].split(";")[0][:160], ch["command"], ch["verdict"], ", ".join(x.replace("class=", "") for x in ch["violation_classes"][:2]), note))
+        if m.get("obsolete"): note = (note + "; " if note else "") + "patch no longer applies (code rewritten by a fix)"
+        out.append("| %s | %s | %s | `%s`: %s (%s) | %s |" % (m["id"], m["property"], m["needs_to_manifest"].split(";")[0][:160], ch["command"], ch["verdict"], ", ".join(x.replace("class=", "") for x in ch["violation_classes"][:2]), note))
+    out += ["", "%d changes kept, %d caught by the quick check of their property, %d of them only after the check was strengthened." % (n, c, st)]
+    return out
+
+def replace_table(lines, header_prefix, new):
+    i = next(k for k, l in enumerate(lines) if l.startswith(header_prefix))
+    j = i
+    while j < len(lines) and lines[j].startswith("|"): j += 1
+    # the summary sentence that follows the table (blank line + one line)
+    if j + 1 < len(lines) and lines[j] == "" and (" mutants caught " in lines[j + 1] or " changes kept, " in lines[j + 1]): j += 2
+    return lines[:i] + new + lines[j:]
+
+def main():
+    if "--update-design" in sys.argv:
+        p = os.path.join(V, "DESIGN.md")
+        lines = open(p).read().split("\n")
+        lines = replace_table(lines, "| mutant | property |", sensitivity_table())
+        lines = replace_table(lines, "| seeded change | property |", seeded_table())
+        open(p, "w").write("\n".join(lines))
+        return
+    print("\n".join(sensitivity_table())); print(); print("\n".join(seeded_table()))
 
 if __name__ == "__main__":
     main()
